@@ -490,6 +490,7 @@ impl<M: Manager, W: From<Object<M>>> Pool<M, W> {
         if self.inner.semaphore.is_closed() {
             return;
         }
+        let mut released = Vec::new();
         let mut slots = self.inner.slots.lock().unwrap();
         let old_max_size = slots.max_size;
         slots.max_size = max_size;
@@ -498,8 +499,9 @@ impl<M: Manager, W: From<Object<M>>> Pool<M, W> {
             while slots.size > slots.max_size {
                 if let Ok(permit) = self.inner.semaphore.try_acquire() {
                     permit.forget();
-                    if slots.vec.pop_front().is_some() {
+                    if let Some(obj) = slots.vec.pop_front() {
                         slots.size -= 1;
+                        released.push(obj);
                     }
                 } else {
                     break;
@@ -518,11 +520,14 @@ impl<M: Manager, W: From<Object<M>>> Pool<M, W> {
             slots.vec.reserve_exact(additional);
             self.inner.semaphore.add_permits(additional);
         }
-        #[cfg(deadpool_verif)]
-        {
-            drop(slots);
-            crate::verif::point("resize:exit", Arc::as_ptr(&self.inner) as usize);
+        drop(slots);
+        // Objects released by a shrink leave the pool for good, so the
+        // manager gets to detach them just like any other discarded object.
+        for mut obj in released {
+            self.inner.manager.detach(&mut obj.obj);
         }
+        #[cfg(deadpool_verif)]
+        crate::verif::point("resize:exit", Arc::as_ptr(&self.inner) as usize);
     }
 
     /// Retains only the objects specified by the given function.
